@@ -51,8 +51,11 @@ class C10Machine(Machine):
         weights = {k: rng.choice([0, 1, 1, 2, 3]) for k in DERIVATIONS}
         if not any(weights.values()):
             weights[rng.choice(DERIVATIONS)] = 2
+        deep = tier == "thorough" and rng.random() < 0.3
         cfg = {
-            "max_ops": rng.randint(4, 14),
+            "max_ops": rng.randint(4, 14) if not deep else rng.randint(15, 28),
+            "deep": deep,
+            "max_converters": MAX_CONVERTERS if not deep else 12,
             "curie_pool": tokens.pick_pool(rng, tokens.CURIE_PREFIXES, tokens.RARE_CURIE_PREFIXES, 4, 9, rare_p=0.08),
             "uri_pool": tokens.pick_pool(rng, tokens.URI_PREFIXES, tokens.RARE_URI_PREFIXES, 4, 9, rare_p=0.08),
             "id_pool": rng.sample(tokens.IDENTIFIERS, 2),
@@ -89,7 +92,7 @@ class C10Machine(Machine):
             h = self.last_was_derivation
             return self._gen_mutate(rng, h)
         choices = []
-        if len(self.entries) < MAX_CONVERTERS:
+        if len(self.entries) < self.config.get("max_converters", MAX_CONVERTERS):
             choices += [("new", cfg["w_new"])]
             choices += [(k, w) for k, w in sorted(cfg["weights"].items()) if w]
         choices += [("mutate", cfg["w_mutate"])]
@@ -355,7 +358,7 @@ class C10Machine(Machine):
         c = self.curies
         kind = op["op"]
         if kind == "new":
-            if len(self.entries) >= MAX_CONVERTERS:
+            if len(self.entries) >= self.config.get("max_converters", MAX_CONVERTERS):
                 return {"skipped": "full"}
             try:
                 conv = c.Converter([c.Record(**r) for r in op["records"]], delimiter=op.get("delimiter", ":"))
@@ -377,7 +380,7 @@ class C10Machine(Machine):
         hs = op["hs"] if kind == "chain" else [op["h"]]
         if not hs or not all(self._valid(h) for h in hs):
             return {"skipped": "handle"}
-        if len(self.entries) >= MAX_CONVERTERS:
+        if len(self.entries) >= self.config.get("max_converters", MAX_CONVERTERS):
             return {"skipped": "full"}
         inputs = [self.entries[h].conv for h in hs]
         from curies import reconciliation, discovery
